@@ -1,6 +1,6 @@
 (* Flat encodings for the console model (C15), kinds 1500..1599.                                   *)
 (*  1500..1510: one operation of the real driver per line, predicted by Model/Console.v;           *)
-(*  1550..1558: monitors - the property itself evaluated on what the implementation was observed  *)
+(*  1550..1560: monitors - the property itself evaluated on what the implementation was observed  *)
 (*  to do.  The monitors keep their own state (the bytes the reference device wrote and the caller *)
 (*  has not been given yet) and never look at the model state, so they stay meaningful when the    *)
 (*  model and the implementation have diverged.                                                    *)
@@ -148,13 +148,32 @@ Definition mon_step (mo : cmon) (k : N) (ins : list N) : cmon * bool :=
     | [g; cl] => (mo, (g =? 0) && (cl =? 0))
     | _ => (mo, false)
     end
+  else if k =? 1559 then
+    (* a recv(pop) has handed out a byte: [avail idx; device's used idx], both read from device-visible
+       memory after the call.  If that byte was the last one the device had written (everything handed
+       over), exactly one receive buffer must now be posted - whatever the suppression words said and
+       wherever the indices stand; otherwise none may be (the chunk is still being read).  Together with
+       1551 (the device then fills that buffer) and 1555 / 1552 / 1558 (the next call reports and returns
+       those bytes) this is "the buffer comes back and the next chunk is delivered". *)
+    match ins with
+    | [ai; ui] => (mo, sub16 ai ui =? (if is_nil (m_q mo) then 1 else 0))
+    | _ => (mo, false)
+    end
+  else if k =? 1560 then
+    (* a send of a non-empty buffer to a device that serves the transmit queue (when notified, having asked for
+       it; or by polling) must return Ok: [gave_up; class].  "every send places the caller's bytes on the
+       transmit queue" - a send that fails or never returns has not (1556 looks at the bytes of those that do) *)
+    match ins with
+    | [g; cl] => (mo, (g =? 0) && (cl =? 0))
+    | _ => (mo, false)
+    end
   else (mo, false).
 
 (* ---------- the per-line step ---------- *)
 Record cio := mkCio { io_c : option cstate; io_mon : cmon }.
 Definition cio_init : cio := mkCio None mon_init.
 
-Definition console_is_monitor (k : N) : bool := (1550 <=? k) && (k <? 1560).
+Definition console_is_monitor (k : N) : bool := (1550 <=? k) && (k <? 1570).
 
 Definition bad1 : list N := [77777].
 
